@@ -360,3 +360,6 @@ def replay(rec):
     print("children before:", inp["children"])
     print("children after :", child_tags(parent))
     return 0
+
+
+CLAIM = {'tech': 'Coq proof by reflection: verified decision procedure (decl_ok) evaluated by vm_compute on declarations and XSD content models regenerated from /repo each run; grid correspondence of xmlchemy semantics', 'text': "Generic theorems: every schema-accepted child sequence is rank-sorted (lang_sorted) and a declaration accepted by decl_ok inserts in rank order in EVERY schema-accepted context (insert_schema_ordered); instance theorem C10_all_declared over all (class, XSD type, declared child) triples and the literal-successor direct sites re-extracted from the current tree; get_or_add/remove/change_to theorems; the xmlchemy model is tied to the metaclass-generated methods by complete enumeration of the property's context grid on real lxml elements.", 'note': 'translator tx_c10/xsdlib trusted to transcribe; xsd:all over-approximated; sites classified template/observed are outside the instance theorem; lxml tree operations modelled on tag lists.', 'ref': '6/C10'}
